@@ -46,6 +46,9 @@ HANDLER_TABLES = {
     # handlers that write into the error object they are given
     'stamp-generic': {None: ['stamp']},
     'stamp-percode': {None: ['id'], 'code': ['stamp']},
+    # the mapping was filled per-code FIRST (as in examples/server_prometheus_metrics.py): the generic handlers still run first
+    'percode-first': {'code': ['id'], None: ['id']},
+    'percode-first-replace': {'code': ['id'], None: ['replace'], 'newcode': ['id']},
 }
 
 
@@ -76,6 +79,10 @@ def expand_table(name):
     return out
 
 
+def _snap(params):
+    return (list(params) if isinstance(params, list) else dict(params)) if params else None
+
+
 def hkind(kind):
     return kind[0] if isinstance(kind, tuple) else kind
 
@@ -86,12 +93,14 @@ def build(disp, stack, table_name, events, mbs=None, shapes='list'):
 
     def mw_sync(i, kind):
         def mw(rq, cx, handler):
-            events.append(('mw', i, 'in', rq.method, rq.params or None, rq.id, cx is CTX))
+            events.append(('mw', i, 'in', rq.method, _snap(rq.params), rq.id, cx is CTX))
             if kind == 'short':
                 return Response(id=rq.id, result={'short': i})
+            if kind == 'mutate' and isinstance(rq.params, list):
+                rq.params.append(i)          # e.g. a middleware injecting a server-side argument into the request it was given
             req = Request('ok', [i], id=rq.id) if kind == 'rewrite' else rq
             r = handler(req, cx)
-            events.append(('mw', i, 'out', rq.method, rq.params or None, rq.id, cx is CTX))
+            events.append(('mw', i, 'out', rq.method, _snap(rq.params), rq.id, cx is CTX))
             if kind == 'wrap' and not isinstance(r, UnsetType) and r.is_success:
                 return Response(id=r.id, result={'w': i, 'inner': r.result})
             return r
@@ -99,14 +108,16 @@ def build(disp, stack, table_name, events, mbs=None, shapes='list'):
 
     def mw_async(i, kind):
         async def mw(rq, cx, handler):
-            events.append(('mw', i, 'in', rq.method, rq.params or None, rq.id, cx is CTX))
+            events.append(('mw', i, 'in', rq.method, _snap(rq.params), rq.id, cx is CTX))
             if shapes == 'suspend':
                 await methods._pause()      # really yields to the loop: the elements of a concurrent batch interleave here
             if kind == 'short':
                 return Response(id=rq.id, result={'short': i})
+            if kind == 'mutate' and isinstance(rq.params, list):
+                rq.params.append(i)          # e.g. a middleware injecting a server-side argument into the request it was given
             req = Request('ok', [i], id=rq.id) if kind == 'rewrite' else rq
             r = await handler(req, cx)
-            events.append(('mw', i, 'out', rq.method, rq.params or None, rq.id, cx is CTX))
+            events.append(('mw', i, 'out', rq.method, _snap(rq.params), rq.id, cx is CTX))
             if kind == 'wrap' and not isinstance(r, UnsetType) and r.is_success:
                 return Response(id=r.id, result={'w': i, 'inner': r.result})
             return r
@@ -218,6 +229,12 @@ def ref_element(o, stack, table, events, calls):
         events.append(('mw', i, 'in') + ev)
         if kind == 'short':
             return dict(id=req.get('id'), result={'short': i})
+        if kind == 'mutate' and isinstance(req.get('params', []), list):
+            req = dict(req, params=list(req.get('params', [])) + [i])
+        if 'mutate' in stack and isinstance(o.get('params', []), list):
+            # one request object travels down the stack (mutating stacks hold no rewriting middleware): on the way out every
+            # middleware sees it as the innermost mutating middleware left it
+            ev = (req['method'], list(o.get('params', [])) + [j for j, k in enumerate(stack) if k == 'mutate'], req.get('id'), True)
         inner = chain(i + 1, dict(jsonrpc='2.0', method='ok', params=[i], **({'id': req['id']} if req.get('id') is not None else {}))
                       if kind == 'rewrite' else req)
         events.append(('mw', i, 'out') + ev)
@@ -267,7 +284,10 @@ REQUESTS = {
     'batch-internal2': [call('vboom', id=1), call('valboom', id=2), call('ok', [1], id=3), call('vboom', id=4)],
     'internal': call('valboom'), 'internal-n': call('vboom', id=None),
     'batch-internal': [call('vboom', id=1), call('ok', [1], id=2), call('valboom', id=None)],
+    # requests WITHOUT a params member
+    'paramless': call('ok'), 'batch-paramless': [call('ok', id=1), call('ok', id=2), call('ok', id=None), call('nop', id=3)],
 }
+MUTATE_REQUESTS = ('paramless', 'batch-paramless', 'ok', 'perr', 'null-result', 'batch')
 
 
 def gen_cases(ctx):
@@ -288,6 +308,19 @@ def gen_cases(ctx):
                             yield dict(stack=stack, table=table, request=rq, disp=disp, shapes='future-handlers')
                         if stack.count('pass') >= 2 and n <= 3 and rq in ('ok', 'batch', 'perr-n') and table in ('none', 'same-generic+percode'):
                             yield dict(stack=stack, table=table, request=rq, disp=disp, shapes='shared-mw')
+
+
+def gen_mutate_cases(ctx):
+    for n in range(1, ctx.pick(3, 4) + 1):
+        for stack in itertools.product(['pass', 'mutate', 'wrap'], repeat=n):
+            if 'mutate' not in stack:
+                continue
+            for table in ('none', 'generic1'):
+                for rq in MUTATE_REQUESTS:
+                    for disp in ('sync', 'async', 'async-seq'):
+                        if disp == 'async-seq' and not isinstance(REQUESTS.get(rq), list):
+                            continue
+                        yield dict(stack=stack, table=table, request=rq, disp=disp)
 
 
 def run_case(case, rec):
@@ -371,10 +404,11 @@ def run(ctx):
                 'handler tables (none, generic x1/x2, per-code x1/x2, both, handlers replacing the error by one with another code with '
                 'and without handlers registered for the new code) x %d request kinds (success, each failure class, as call and '
                 'notification, mixed batch, all-notification batch, null result, unparsable / invalid / empty / oversize documents) x '
-                'sync/async. state = one configuration x request; non-trivial = at least one middleware / handler event expected'
-                % (ctx.pick(4, 5), len(HANDLER_TABLES), len(REQUESTS) + 1))
+                'sync/async; + stacks of 1..%d holding a middleware that appends to request.params IN PLACE x requests with and without a params member '
+                '(every request is served twice: nothing may leak from one request into the next). state = one configuration x request; non-trivial = at least one middleware / handler event expected'
+                % (ctx.pick(4, 5), len(HANDLER_TABLES), len(REQUESTS) + 1, ctx.pick(3, 4)))
     ctx.assumptions += ['user middlewares / handlers do not raise; a short-circuiting middleware\'s response is sent even for a notification']
-    ctx.run_cases('C12', lambda: gen_cases(ctx), run_case, recheck_every=499)
+    ctx.run_cases('C12', lambda: itertools.chain(gen_cases(ctx), gen_mutate_cases(ctx)), run_case, recheck_every=499)
     ctx.guard('events compared', ctx.rec.nontrivial_n > 1000, ctx.rec.nontrivial_n)
 
 
